@@ -30,6 +30,10 @@ CHECKS = {
    text='Every hinted evolution text produced by Evolver(hinted=True)/get_evolution_content() for the C05 pair space and for constructed mutations over the value grammar is exec-ed in a fresh namespace like an evolution module; the loaded MUTATIONS must equal the hinted ones (str), simulate to the same signature and generate the same SQL; texts with a user-input placeholder must carry it and refuse to load or run.',
    note='Hints that cannot be computed or applied at all belong to C05/C01.',
    design='3/C13'),
+ 'C14': dict(level='model_checking', technique='preview-vs-execution differential on every pending upgrade; exhaustive exploration of set-iteration-order choices (controlled scheduler for `set`); finite PYTHONHASHSEED sweep in separate interpreters as capture check',
+   text='For every pending upgrade of the generated histories (plus Meta-rich histories with 3-4 together/index entries) the `evolve --sql` text must equal, statement by statement with parameters substituted, what `evolve --execute` issues between applying_evolution and applied_evolution from the same snapshot; the name `set` is shadowed in the SQL/hint generating modules by an order-controlled subclass and every single iteration-order deviation (all permutations for sets <= 4; pairs of deviations in thorough) must leave preview and hint text unchanged; the same cases are digested under 4 (quick) / 16 (thorough) hash seeds in separate interpreters.',
+   note='Set literals/comprehensions and dict order are only covered by the finite seed sweep; a seed difference that the order exploration cannot explain is listed in the evidence.',
+   design='3/C14'),
  'C17': dict(level='fault_enumeration', technique='acceptor over the interleaved signal/statement log of every fault-free and every faulted run of the C07 enumeration plus no-op and two-app runs',
    text='A small acceptor checks every run: evolving at most once and before any change; exactly one of evolved/evolving_failed, evolved only after the version row is saved and after the last change; applying_*/creating_models paired with their counterparts unless the run fails in between; every non-bookkeeping effect statement lies between a pair; _evolve_lock restored.',
    note='Deferred index SQL for new models and PRAGMA statements are not attributed to a signal pair; migration signals are exercised by C10.',
